@@ -118,3 +118,52 @@ def classify_set(mset, rec):
 
 def set_digest(mset):
     return digest(mset)
+
+
+def compile_json(mset, genTexts=False):
+    """Compile the whole set through ONE MibCompiler (shared parser, symbol-table generator and JsonCodeGen), return
+    (statuses, {module: parsed JSON document}, texts)."""
+    import json as _json
+    from pysmi.compiler import MibCompiler
+    from pysmi.reader.callback import CallbackReader
+    from pysmi.writer.callback import CallbackWriter
+    from pysmi.searcher.stub import StubSearcher
+    from pysmi.codegen.jsondoc import JsonCodeGen
+    from vlib import fixtures
+    pipeline.install_jinja_cache()
+    texts = dict((m['name'], mibgen.render_simple(m)) for m in mset['modules'])
+
+    def read(name, ctx):
+        if name in texts:
+            return texts[name]
+        return fixtures.text(name) if name in fixtures.available() else ''
+
+    written = {}
+    comp = MibCompiler(pipeline.parser('smiV1Relaxed'), JsonCodeGen(), CallbackWriter(lambda n, d, c: written.__setitem__(n, d)))
+    comp.addSources(CallbackReader(read))
+    comp.addSearchers(StubSearcher(*fixtures.BASE_MODULES))
+    res = comp.compile(*[m['name'] for m in mset['modules']], genTexts=genTexts)
+    docs = {}
+    for k, v in written.items():
+        try:
+            docs[k] = _json.loads(v)
+        except ValueError:
+            docs[k] = None
+    return res, docs, texts
+
+
+def evaluate_compile(mset, genTexts=False):
+    """Mismatches [(backend, facet, detail)] of the JSON documents produced by one compile() call."""
+    res, docs, texts = compile_json(mset, genTexts)
+    mm = []
+    for m in mset['modules']:
+        name = m['name']
+        if res.get(name) != 'compiled':
+            mm.append(('compile', 'compile-failed', '%s: status %r error %r' % (name, res.get(name), getattr(res.get(name), 'error', None))))
+            continue
+        if docs.get(name) is None:
+            mm.append(('compile', 'json-syntax', name))
+            continue
+        for facet, detail in oracle.compare_json(m, docs[name], genTexts, oracle.norm_default):
+            mm.append(('compile-json', facet, detail))
+    return texts, mm
